@@ -2485,6 +2485,18 @@ class ChannelManager:
             )
             return
 
+        if channel.destination_cid != request.source_cid:
+            # BT Core Spec, Vol 3, Part A, Sect 4.6: a request whose SCID does not
+            # match the channel found by its DCID is silently discarded
+            logger.warning(
+                color(
+                    f'disconnection request for channel {request.destination_cid} '
+                    f'with unexpected source CID {request.source_cid}',
+                    'red',
+                )
+            )
+            return
+
         channel.on_disconnection_request(request)
 
     def on_l2cap_disconnection_response(
